@@ -227,7 +227,7 @@ PROPS = {
     "C02": {
         "rules": [r_viterbi.viterbi, r_viterbi.traceback, r_panic.run_narrow_lattice,
                   kind_scope("tokenizer", "connector", "lexicon::param", "unknown"),
-                  r_reset.run_tokens, r_panic.run_costsum, r_map.run_compose, r_codec.derived_caches, r_panic.fieldwidth],
+                  r_reset.run_tokens, r_panic.run_costsum, r_map.run_compose, r_codec.derived_caches, r_panic.fieldwidth, r_scorer.pruneset],
         "explanation": "VITERBI: insert_node/insert_eos take (argmin, min) from one search over "
                        "the complete predecessor list of the very start_node they store, with "
                        "cost(pred.right_id, own left_id), min_cost = best + word_cost, EOS "
@@ -502,7 +502,7 @@ _ADDED2 = {
     "C11": "RAWINPUT (second level): library functions hand their caller's reader to Lexicon::from_reader / UnkHandler::from_reader unchanged. PACK: every value packed into a shared integer (`a | b << s`) is known to fit the gap up to the next field (type, mask, or a rejecting comparison on every path) - a (posting offset, homograph count) pair packed without a bound on the count would lose homographs.",
     "C10": "PACK as for C11: CharInfo::new rejects every value that does not fit its bit field. RAWBUILD (FTSMAX): the row width is folded over both bigram files.",
     "C01": "FIELDWIDTH: no position-, length- or count-carrying field of vibrato's types is narrowed to 16 bits or less relative to the confirmed tree (spec/field_types.json).",
-    "C02": "FIELDWIDTH as for C01 (back-pointers and start positions of lattice nodes).",
+    "C02": "VITERBI also requires insert_node to append its node on every path (no merging of candidates at insertion). PRUNESET (the C07 rule): the dual connector keeps the cost lines of the empty BOS/EOS feature, i.e. the connections from the sentence start and to the sentence end. FIELDWIDTH as for C01 (back-pointers and start positions of lattice nodes).",
     "C04": "FIELDWIDTH as for C01. OPTKEEP / OPTSET: the Tokenizer option setters return their receiver, and a field a setter assigns on one path it assigns on every successful path, so the options in force are a function of the last call's arguments and not of the history of option calls.",
     "C12": "OPTSET as for C04 (ignore_space / max_grouping_len). UNKSPAN: a prefix candidate is skipped on account of the sentence length only when it would end beyond the last character, so a sentence-final word has the candidates it has in front of a space run.",
     "C08": "OPTSET as for C04, over the Dictionary's by-value methods. MAPKEEP reset clauses: every Ok exit of reset_user_lexicon_from_reader assigns data.user_lexicon; with a None reader the only value assigned is None.",
